@@ -36,7 +36,7 @@ class C12(EngineProp):
     rule = ('scripts mixing legal traffic with frames of any type on any stream (unknown, finished, live, 0), wrong types for the role, duplicate ids, fragments of a different type, '
             'handlers/publishers/futures scripted to raise; in half of the scripts a well-formed fragmented request of the peer is begun before the script and finished after it (it must be served); after each script a probe request-response on a fresh stream must be answered, a request-response issued by the local application must reach the wire and its response the caller, and both tasks alive; '
             'plus raw messages on the message framing (serialised frames as is, truncated, IGNORE-flagged and truncated, bit-flipped, unknown type, random bytes, empty, the reserved top bit of the first field or of the stream id set - half of these as a KEEPALIVE that asks to be echoed), '
-            'decoded by the codec model on the model side; malformed input on the byte-stream framing under arbitrary chunking is exercised by the C04 check')
+            'decoded by the codec model on the model side; text / ping / pong / empty websocket messages between two requests on the aiohttp server and client transports; malformed input on the byte-stream framing under arbitrary chunking is exercised by the C04 check')
     assumptions = []
 
     BYSTANDER = {'server': 1000003, 'client': 1000004}
